@@ -1,6 +1,6 @@
 From Coq Require Import ZArith List String Bool.
 From FV Require Import Base.Ser Base.Res C03.Model.
-From FV Require C03.ModelBinary.
+From FV Require C03.ModelBinary C03.ModelProgram.
 Import ListNotations.
 Open Scope string_scope.
 Definition unesc (s : list Z) : list Z := xml_unescape (S (List.length s)) s.
@@ -11,6 +11,8 @@ Definition reg : registry := [
   ("hexStr", run1 hexStr);
   ("deHexStr", run1 deHexStr);
   ("num2binary", run2 ModelBinary.num2binary);
-  ("binary2num", run1 ModelBinary.binary2num)
+  ("binary2num", run1 ModelBinary.binary2num);
+  ("tt_disassemble", run1 ModelProgram.tt_disassemble);
+  ("tt_assemble", run1 ModelProgram.tt_assemble)
 ].
 Definition fv_entry := dispatch reg.
